@@ -82,6 +82,13 @@ pub fn horner_zero_points<S: Suite>(ctx: &Ctx, field_size: &BigUint, rand: &(dyn
     out
 }
 
+fn pts_x<F: RF>(p: &Pt<F>) -> F {
+    match p {
+        Pt::Aff(x, _) => x.clone(),
+        Pt::Inf => F::one(),
+    }
+}
+
 fn iso_checks<S: Suite>(ctx: &Ctx, pts: &[Pt<S::K>], lams: &[S::K], bound: usize, kernel: &[Pt<S::K>], expected_lens: [usize; 4]) {
     let name = S::NAME;
     let tables = S::lib_iso();
@@ -133,6 +140,62 @@ fn iso_checks<S: Suite>(ctx: &Ctx, pts: &[Pt<S::K>], lams: &[S::K], bound: usize
             Ok(if d[1] == 0 { "Z = 1" } else { "Z != 1" })
         },
     );
+    // Representatives on which a raw Jacobian coordinate COINCIDES with a special constant of the map: for a point (x, y) and
+    // a zero or pole c of the rational maps (root of one of the four coefficient polynomials: kernel x-coordinates among
+    // them), the scalings with X = c (lambda^2 = c/x), X = c Z (lambda = c/x), X = c Z^3 (lambda = x/c).  A comparison of a
+    // raw coordinate with such a constant under the wrong homogenisation fires on exactly these representatives.
+    {
+        let field_size = {
+            // |K| from the suite: Fq for G1, Fq^2 for G2 (degree read off the x-denominator table: 10 -> G1, 2 -> G2)
+            if tables[1].len() > 5 { q().clone() } else { q() * q() }
+        };
+        let mut consts: Vec<S::K> = vec![];
+        let mut seed = crate::infra::SplitMix(0xC16C16 ^ tables[0].len() as u64);
+        for t in &tables {
+            let mut rnd = || {
+                // field elements for the splitting step: small embedded integers times a running counter are enough
+                let a = seed.next();
+                S::K::from_u64(a | 1).mul(&S::K::from_u64(seed.next() | 1)).add(&pts_x(&pts[(a % pts.len() as u64) as usize]))
+            };
+            for r in crate::polyroots::roots(t, &field_size, &mut rnd) {
+                if !r.is_zero() && !consts.contains(&r) {
+                    consts.push(r);
+                }
+            }
+        }
+        let base: Vec<&Pt<S::K>> = pts.iter().filter(|p| matches!(p, Pt::Aff(x, _) if !x.is_zero())).take(6).collect();
+        let mut cases: Vec<(usize, S::K, &'static str)> = vec![];
+        for (bi, p) in base.iter().enumerate() {
+            if let Pt::Aff(x, _) = p {
+                for c in &consts {
+                    let xi = x.inv().unwrap();
+                    cases.push((bi, c.mul(&xi), "X = c Z"));
+                    cases.push((bi, x.mul(&c.inv().unwrap()), "X = c Z^3"));
+                    if let Some(l) = S::sqrt(&c.mul(&xi)) {
+                        cases.push((bi, l, "X = c"));
+                    }
+                }
+            }
+        }
+        ctx.extra(&format!("{}: rational zeros and poles of the isogeny maps / coincidence representatives", name), json!([consts.len(), cases.len()]));
+        ctx.sweep(
+            &format!("{}.iso_points.coincidence_representatives", name),
+            cases.len() as u64,
+            |i| json!({"point_on_iso_curve": S::show(base[cases[i as usize].0]), "lambda": S::showk(&cases[i as usize].1), "coincidence": cases[i as usize].2}),
+            |i| {
+                let (bi, lam, _) = &cases[i as usize];
+                let p = base[*bi];
+                let mut jp = S::rep(p, lam);
+                guard(|| S::lib_iso_map(&mut jp)).map_err(|m| Fail::new(format!("{}: isogeny_map panicked: {}", name, m)))?;
+                let got = S::pt_of(&jp);
+                let want = ref_iso(&tables, p);
+                if got != want {
+                    return Err(Fail::with(format!("{}: isogeny_map differs from the affine rational map on a representative whose raw coordinates coincide with a special constant ({})", name, cases[i as usize].2), json!({"got": S::show(&got), "want": S::show(&want)})));
+                }
+                Ok("coincidence representative")
+            },
+        );
+    }
     // identity encodings and kernel points map to the identity
     let zero = S::K::zero();
     let mut ids: Vec<(String, S::Proj)> = vec![("(0,1,0)".into(), S::raw(&zero, &S::K::one(), &zero)), ("(0,0,0)".into(), S::raw(&zero, &zero, &zero))];
